@@ -13,7 +13,8 @@
    determinism and independence of unrelated inputs. *)
 EXTENDS Pipeline, TLC, Json, IOUtils
 
-CONSTANT AsBuiltRoot   \* KF12 (as built): run in the module's root directory, the tool writes nothing
+CONSTANTS AsBuiltRoot,  \* KF12 (as built): run in the module's root directory, the tool writes nothing
+          AsBuiltDep    \* KF21 (as built): a source importing a package of the same run that has no generated files yet makes the tool fail
 
 Trace == ndJsonDeserialize(IOEnv.VERIF_TRACE)
 ToSet(sq) == {sq[i] : i \in 1..Len(sq)}
@@ -41,6 +42,19 @@ GoGenOK(e, g) ==
   /\ e.build = 0 /\ e.test = 0 /\ e.buildco = 0                            \* builds and tests pass without the tag, type-checks with it
 \* KF12 (as built): in the module root the temporary directory lies outside the module and nothing is written
 RootAsBuilt(e) == AsBuiltRoot /\ e.dir = <<>> /\ ToSet(e.after) = ToSet(e.before)
+\* KF21 (as built): the optimiser reloads the staged files WITHOUT the co tag; a staged file importing a package
+\* whose generated (untagged) files do not exist yet cannot be type-checked and the tool panics ("illegal state").
+\* Identified by the layout: a source `usesub` under the run directory while p/sub has no generated file yet.
+\* Even then nothing but derived outputs may appear and nothing may be modified or removed.
+DepAsBuilt(e) ==
+  LET B == ToSet(e.before) A == ToSet(e.after)
+      srcs == {f \in B : IsSrc(f) /\ Under(f, e.dir)}
+      outs == {Derived(f) : f \in srcs} IN
+  /\ AsBuiltDep /\ e.rc # 0
+  /\ \E f \in srcs : f.base = "usesub"
+  /\ ~\E f \in B : f.dir = <<"p", "sub">> /\ f.suffix = ".go"
+  /\ \A f \in B : (Path(f) \notin outs /\ ~InTmp(f, e.dir)) => f \in A
+  /\ \A o \in A : ~InTmp(o, e.dir) /\ Path(o) \in {Path(f) : f \in B} \cup outs
 NewBindings(e, g) ==
   LET B == ToSet(e.before) A == ToSet(e.after) IN
   {<<f.sha, o.sha>> : f \in {x \in B : IsSrc(x) /\ Under(x, e.dir)}, o \in {y \in A : TRUE}}
@@ -48,8 +62,8 @@ NewBindings(e, g) ==
             \E f \in B, o \in A : IsSrc(f) /\ Under(f, e.dir) /\ Path(o) = Derived(f) /\ p = <<f.sha, o.sha>>}
 
 Gen == /\ l <= Len(Trace) /\ Trace[l].op = "gen"
-       /\ (GoGenOK(Trace[l], gen) \/ RootAsBuilt(Trace[l]))
-       /\ gen' = gen \cup NewBindings(Trace[l], gen)
+       /\ (GoGenOK(Trace[l], gen) \/ RootAsBuilt(Trace[l]) \/ DepAsBuilt(Trace[l]))
+       /\ gen' = IF Trace[l].rc = 0 THEN gen \cup NewBindings(Trace[l], gen) ELSE gen
        /\ l' = l + 1
 Other == /\ l <= Len(Trace) /\ Trace[l].op \in {"reset", "other"} /\ l' = l + 1 /\ UNCHANGED gen
 Next == Gen \/ Other
